@@ -200,8 +200,7 @@ Definition headers_load (h : head) (src : list N) : res frame :=
       else Ok src2) ;;
   Ok (FHeaders (h_sid h) flags dep src3).
 
-(* frame/headers.rs PushPromise::load (note the `src.len() < 5` test although only 4 octets are
-   read: a PUSH_PROMISE whose fragment is empty is refused with MalformedMessage) *)
+(* frame/headers.rs PushPromise::load (the fragment after the promised id may be empty) *)
 Definition push_promise_load (h : head) (src : list N) : res frame :=
   let flags := h_flag h in
   if h_sid h =? 0 then Err InvalidStreamId else
@@ -212,7 +211,7 @@ Definition push_promise_load (h : head) (src : list N) : res frame :=
         | p :: rest => Ok (p, rest)
         end
       else Ok (0, src)) ;;
-  if lenN src1 <? 5 then Err MalformedMessage else
+  if lenN src1 <? 4 then Err MalformedMessage else
   match src1 with
   | a :: b :: c :: d :: src2 =>
       let promised := fst (parse_sid a b c d) in
@@ -344,6 +343,7 @@ Inductive parse_result :=
 | POk (l : loaded)
 | PErr (k : kind) (sid : N) (e : frame_error)        (* a `load` failed *)
 | PErrPriorityZero                                   (* framed_read.rs: PRIORITY on stream 0 *)
+| PErrGoAwayStream                                   (* framed_read.rs: GOAWAY on a non-zero stream *)
 | PErrFrameSize                                      (* LengthDelimitedCodecError *)
 | PNotOneFrame                                       (* not what the length-delimited layer yields *)
 | PPanic.
@@ -367,7 +367,9 @@ Definition load_frame (bs : list N) : parse_result :=
       | KData => lift k (h_sid h) (data_load h payload)
       | KHeaders => lift k (h_sid h) (headers_load h payload)
       | KReset => lift k (h_sid h) (reset_load h payload)
-      | KGoAway => lift k (h_sid h) (go_away_load payload)
+      | KGoAway =>
+          if negb (h_sid h =? 0) then PErrGoAwayStream
+          else lift k (h_sid h) (go_away_load payload)
       | KPushPromise => lift k (h_sid h) (push_promise_load h payload)
       | KPriority =>
           if h_sid h =? 0 then PErrPriorityZero
@@ -648,41 +650,16 @@ Definition wire_matches (w : wire_frame) (l : loaded) : bool :=
   | _, _ => false
   end.
 
-(* Documented differences between `load_frame` and the RFC grammar on single frames.  Each is
-   decided from the 9 octet header and the payload length alone. *)
-Inductive deviation :=
-| DevNone
-| DevPushPromiseEmptyFragment   (* h2 stricter: PushPromise::load wants 5 octets after the pad length octet *)
-| DevGoAwayStreamId             (* h2 laxer: GOAWAY with a non-zero stream identifier is accepted *)
-| DevResetStreamZero            (* codec laxer: RST_STREAM on stream 0 is only refused later, in
-                                   proto/streams/streams.rs recv_reset (outside this model) *)
-| DevContinuationStreamZero.    (* codec level laxer: refused by the CONTINUATION book-keeping of
-                                   decode_frame (Model/ReadBuf.v), not by `load` *)
-
-Definition deviation_of (bs : list N) : deviation :=
-  match bs with
-  | _ :: _ :: _ :: ty :: fl :: s3 :: s2 :: s1 :: s0 :: payload =>
-      let sid := u31_of s3 s2 s1 s0 in
-      if ty =? T_PUSH_PROMISE then
-        if negb (sid =? 0) && (olen payload =? (if flag fl F_PADDED then 5 else 4))
-           && (if flag fl F_PADDED then match payload with p :: _ => p =? 0 | [] => false end else true)
-        then DevPushPromiseEmptyFragment else DevNone
-      else if ty =? T_GOAWAY then
-        if negb (sid =? 0) && (8 <=? olen payload) then DevGoAwayStreamId else DevNone
-      else if ty =? T_RST_STREAM then
-        if (sid =? 0) && (olen payload =? 4) then DevResetStreamZero else DevNone
-      else if ty =? T_CONTINUATION then
-        if sid =? 0 then DevContinuationStreamZero else DevNone
-      else DevNone
-  | _ => DevNone
-  end.
-
-(* agreement of the two parsers on one input *)
+(* agreement of the two parsers on one input.  The reference is the grammar at the codec boundary
+   (Ref: rfc_parse_frame_codec): RST_STREAM / CONTINUATION on stream 0 are handed up unchanged and
+   refused above the codec -- by proto/streams/streams.rs recv_reset, and by decode_frame's
+   CONTINUATION book-keeping (Proofs/ReadBufProofs.v continuation_stream_zero_refused). *)
 Definition agree (m : parse_result) (r : rfc_result) : bool :=
   match m, r with
   | POk l, Accept w => wire_matches w l
   | PErr _ _ _, Reject _ => true
   | PErrPriorityZero, Reject _ => true
+  | PErrGoAwayStream, Reject _ => true
   | PErrFrameSize, Reject code => code =? FRAME_SIZE_ERROR
   | PNotOneFrame, NotOneFrame => true
   | _, _ => false
